@@ -701,11 +701,18 @@ func (d *DefaultServerDispatcher) waitForTimeout(clientID string, clientCtx clie
 	case <-clientCtx.ctx.Done():
 		err := clientCtx.ctx.Err()
 		if err == context.DeadlineExceeded {
-			// Timeout triggered, notifying messagePump
+			// Timeout triggered, notifying messagePump.
+			// The read lock only protects the fields: it must not be held while waiting for room in the channel
+			// (more expiries at once than the channel holds), or the message pump, which needs the write lock
+			// of the shared pending request state to handle them, can never drain it.
 			d.mutex.RLock()
-			defer d.mutex.RUnlock()
-			if d.running {
-				d.timerC <- timeoutEvent{clientID: clientID, ctx: clientCtx.ctx}
+			running, timerC, stoppedC := d.running, d.timerC, d.stoppedC
+			d.mutex.RUnlock()
+			if running {
+				select {
+				case timerC <- timeoutEvent{clientID: clientID, ctx: clientCtx.ctx}:
+				case <-stoppedC:
+				}
 			}
 		} else {
 			log.Debugf("timeout canceled for %s", clientID)
